@@ -1042,7 +1042,9 @@ def enumerate_paths(body, limit=4000, max_visits=1, start=0):
                 o = rv["x"]
                 if o.get("k") in ("copy", "move") and not o["place"]["p"]:
                     v = c.get(o["place"]["l"])
-                    if v is not None:
+                    if isinstance(v, tuple):
+                        val = ("call", v[1], not v[2])
+                    elif v is not None:
                         val = 0 if v else 1
             if val is not None:
                 if not changed:
@@ -1055,10 +1057,17 @@ def enumerate_paths(body, limit=4000, max_visits=1, start=0):
                     changed = True
                 del c[l]
         t = body.blocks[bb]["term"]
-        if t["k"] == "call" and not t["dest"]["p"] and t["dest"]["l"] in c:
-            if not changed:
-                c = dict(c)
-            del c[t["dest"]["l"]]
+        if t["k"] == "call" and not t["dest"]["p"]:
+            dl = t["dest"]["l"]
+            if body.local_ty(dl) == "bool":
+                # remember which call produced this boolean: a later switch on a copy of it is a test of that call
+                if not changed:
+                    c = dict(c)
+                c[dl] = ("call", bb, True)
+            elif dl in c:
+                if not changed:
+                    c = dict(c)
+                del c[dl]
         return c
 
     # iterative DFS
@@ -1081,7 +1090,7 @@ def enumerate_paths(body, limit=4000, max_visits=1, start=0):
                 known = consts.get(d["place"]["l"])
             elif d.get("k") == "const" and "int" in d:
                 known = d["int"]
-            if known is not None:
+            if known is not None and not isinstance(known, tuple):
                 tb = t["otherwise"]
                 for v, x in t["targets"]:
                     if str(v) == str(known):
@@ -1091,6 +1100,18 @@ def enumerate_paths(body, limit=4000, max_visits=1, start=0):
                 continue
             ds = sw(bb)
             kind, subject, labels = ds
+            if isinstance(known, tuple) and kind in ("bool", "int") and t.get("dty") == "bool" and \
+                    not (subject and all(r.kind == "const" for r in subject)):
+                # the switched boolean is, on this path, the result of one particular call (several definitions reach the
+                # switch, so it cannot be described flow-insensitively)
+                ct = body.blocks[known[1]]["term"]
+                kind = "call"
+                subject = (callee(ct), tuple(frozenset(prov(body, a)) for a in ct["args"]), known[1])
+                labels = {}
+                for v, x in t["targets"]:
+                    labels.setdefault(x, []).append((v != "0") == known[2])
+                listed = [(v != "0") for v, x in t["targets"]]
+                labels.setdefault(t["otherwise"], []).extend([(x == known[2]) for x in (True, False) if x not in listed])
             for tb in body.succs(bb):
                 if blocks.count(tb) >= max_visits:
                     continue
